@@ -74,6 +74,18 @@ def deletions(rnd, lines, quick):
             out.append(("ligand atom next to a short bond " + lines[i][12:20], [i]))
         for i in rnd.sample(het, min(len(het), 4 if quick else 60)):
             out.append(("ligand atom " + lines[i][12:20], [i]))
+        # a ligand atom stripped to a single bond: all its neighbours but one are removed (a carbonyl carbon left with its
+        # oxygen only, an amine nitrogen left on one carbon): hydrogens are then built on a centre whose only neighbour may
+        # itself have no other neighbour
+        multi = [c for c in het if len(near[c]) >= 2]
+        short = [c for c in multi if any(d(c, j) < 1.30 for j in near[c])]
+        rest = [c for c in multi if c not in short]
+        pick = short[:] if (not quick or len(short) <= 10) else rnd.sample(short, 10)
+        pick += rest if not quick else rnd.sample(rest, min(len(rest), 6))
+        for c in pick:
+            keeps = sorted(near[c], key=lambda j: d(c, j))
+            for keep in (keeps if not quick else keeps[:1] + ([rnd.choice(keeps[1:])] if len(keeps) > 1 else [])):
+                out.append(("ligand atom %s stripped to its bond with %s" % (lines[c][12:16].strip(), lines[keep][12:16].strip()), [j for j in near[c] if j != keep]))
     for frac in (0.01, 0.1, 0.3, 0.6):
         out.append(("random %d%%" % int(frac * 100), rnd.sample(atoms, max(1, int(len(atoms) * frac)))))
     return [(k, sorted(set(d))) for k, d in out if d]
